@@ -12,6 +12,7 @@ import vlib, graphwalk
 PID = "C17"
 KINDS = ["tools", "prompts", "resources", "templates"]
 HARNESS = ["mcp/c17_paginate_test.go"]
+MAX_RESTARTS = 8
 
 
 def parse_set(txt):
@@ -48,8 +49,8 @@ def run_harness(out, hist_path, seed, nrand, ncur, narb, cursor_replay=None, rac
     """Runs the Go harness; when the process dies inside the code under test the pending line (the request in
     flight, err=crash) is appended to the log and the harness is restarted after the crashed job."""
     obs = os.path.join(out, "obs.ndjson")
-    all_rows, skip, outputs = [], 0, []
-    for attempt in range(6):
+    all_rows, skip, outputs, exhausted = [], 0, [], False
+    for attempt in range(MAX_RESTARTS + 1):
         part = os.path.join(out, "obs_part.ndjson")
         for p in (part, part + ".pending"):
             if os.path.exists(p):
@@ -75,12 +76,12 @@ def run_harness(out, hist_path, seed, nrand, ncur, narb, cursor_replay=None, rac
         all_rows.append(crash)
         skip = crash["job"] + 1
     else:
-        raise vlib.MachineryError("C17 harness crashed more than 5 times; giving up\n" + outputs[-1][-2000:])
+        exhausted = True  # the crash lines recorded so far are still judged; coverage is incomplete
     for p in (part, part + ".pending"):
         if os.path.exists(p):
             os.remove(p)
     vlib.write_ndjson(obs, all_rows)
-    return obs, all_rows, "\n".join(outputs)
+    return obs, all_rows, "\n".join(outputs), exhausted
 
 
 def ops_of(trows, upto):
@@ -108,6 +109,9 @@ def run(tier, seed, replay):
         "in-memory transports; one client session per server; TTL 0 (no client-side caching of list results)",
         "TLC exhaustive results are for the stated small constants"]
     out = vlib.outdir(PID)
+    for f in os.listdir(out):  # stale violation files of earlier runs
+        if f.startswith("violation-") and not (replay and os.path.abspath(replay) == os.path.join(out, f)):
+            os.remove(os.path.join(out, f))
 
     # 1. exhaustive model check of the design
     cfg = "Paginate_mc_quick.cfg" if tier == "quick" else "Paginate_mc_thorough.cfg"
@@ -142,7 +146,7 @@ def run(tier, seed, replay):
     vlib.write_ndjson(hist_path, rows)
 
     # 3. run on the real code
-    obs, obs_rows, gout = run_harness(out, hist_path, seed, nrand, ncur, narb, cursor_replay, race=(tier == "thorough"))
+    obs, obs_rows, gout, exhausted = run_harness(out, hist_path, seed, nrand, ncur, narb, cursor_replay, race=(tier == "thorough"))
     if "DATA RACE" in gout:
         v.violation("race", "data race reported by the race detector", {"output": gout[-3000:]})
     traces = vlib.split_traces(obs_rows)
@@ -210,9 +214,13 @@ def run(tier, seed, replay):
             rep = {"kind": head.get("kind"), "ps": head.get("ps"), "init": head.get("init"), "uids": head.get("names", []),
                    "ops": ops_of(trows, upto), "history_hash": vlib.sha(ops_of(trows, upto))}
         rep["line"] = e
-        v.violation(sig, "monitor %s failed at line %d of trace %s (%s, page size %s): %s" % (
+        v.violation(sig, "monitor %s failed at log line %d, trace %s (%s, page size %s): %s" % (
             f["monfail"], f["line"], tid, head.get("kind"), head.get("ps"),
             json.dumps({k: e.get(k) for k in ("ev", "cls", "op", "ids", "more", "err", "seq", "man", "alive", "panic") if e.get(k) not in (None, "", [])})[:400]), rep)
+
+    if exhausted and not v.violations:
+        raise vlib.MachineryError("the harness process crashed more than %d times (all known findings): coverage incomplete" % MAX_RESTARTS)
+    v.cov["harness_restarts_exhausted"] = exhausted
 
     # 5. strict: binding / drift
     bad_traces = set(vlib.trace_of_line(traces, f["line"])[0] for f in fails)
